@@ -1114,6 +1114,11 @@ class CloseMonitor(Monitor):
                     if adv is not None:
                         remote = adv / 1000.0
                         idle = local if remote == 0 else (min(local, remote) if ep.handshake_complete else max(local, remote))
+                    if local == 0 or remote == 0:
+                        # 0 = "no idle timeout of mine" (RFC 9000 10.1): the other value applies alone; none at all
+                        # leaves three probe timeouts as the only bound the library knows
+                        nz = [x for x in (local, remote) if x > 0]
+                        idle = (min(nz) if ep.handshake_complete or local == 0 else max(nz)) if nz else 0.0
                     deadline = lr[0] + max(idle, 3 * lr[1])
                     self.close_kinds.add("idle")
                     # ... and not before an idle period of the negotiated length has passed since the last packet
@@ -1122,6 +1127,10 @@ class CloseMonitor(Monitor):
                     lrc = self.last_rx_certain.get(ep.name)
                     earliest = lrc + min(x for x in (local, remote) if x > 0) if (lrc is not None and any(x > 0 for x in (local, remote))) else None
                     self.idle_early_checks += 1
+                    if local == 0:
+                        # (an endpoint configured with idle_timeout 0 advertises "none" and, as the library stands,
+                        # idles out after three probe timeouts: no commitment was made, nothing to hold it to)
+                        earliest = None
                     if earliest is not None and t < earliest - 1e-6:
                         lr = (lrc, lr[1])
                         raise Violation("close:idle-termination-early", "%s: last packet certainly processed at t=%.4f, idle timeouts advertised: own %.3f, peer %.3f (0 = none), terminated with 'Idle timeout' at t=%.4f, %.3f s after it" % (ep.name, lr[0], local, remote, t, t - lr[0]), None)
